@@ -304,6 +304,135 @@ const usersSchema = `{"parser_settings": {"version": "omni.2.1", "file_format_ty
    "u3": {"custom_func": {"name": "javascript_with_context", "args": [{"const": "JSON.parse(_node).v + ':' + Math.abs(-1)"}]}}
  }}}}`
 
+// javascript_with_context SEVERAL TIMES on the SAME node
+const ctx3Schema = `{"parser_settings": {"version": "omni.2.1", "file_format_type": "json"},
+ "transform_declarations": {"FINAL_OUTPUT": {"xpath": "/*", "object": {
+   "v3": {"custom_func": {"name": "javascript_with_context", "args": [{"const": "JSON.parse(_node).v"}]}},
+   "s3": {"custom_func": {"name": "javascript_with_context", "args": [{"const": "JSON.parse(_node).s"}]}},
+   "t3": {"custom_func": {"name": "javascript_with_context", "args": [{"const": "JSON.parse(_node).t + '|' + k"}, {"const": "k"}, {"xpath": "w"}]}},
+   "w3": {"custom_func": {"name": "javascript_with_context", "args": [{"const": "JSON.parse(_node).w"}]}},
+   "all": {"custom_func": {"name": "javascript_with_context", "args": [{"const": "_node"}]}},
+   "kid": {"xpath": "v", "object": {
+      "k1": {"custom_func": {"name": "javascript_with_context", "args": [{"const": "_node"}]}},
+      "k2": {"custom_func": {"name": "javascript_with_context", "args": [{"const": "_node + _node"}]}}}}
+ }}}}`
+
+// custom_funcs with 2-4 args mixing per-transform external properties and per-record fields
+const extSchema = `{"parser_settings": {"version": "omni.2.1", "file_format_type": "json"},
+ "transform_declarations": {"FINAL_OUTPUT": {"xpath": "/*", "object": {
+   "c1": {"custom_func": {"name": "concat", "args": [{"external": "tenant"}, {"const": "-"}, {"xpath": "s"}, {"xpath": "v"}]}},
+   "c2": {"custom_func": {"name": "coalesce", "args": [{"xpath": "missing"}, {"external": "region"}, {"xpath": "s"}]}},
+   "c3": {"custom_func": {"name": "upper", "args": [{"custom_func": {"name": "concat", "args": [{"external": "tenant"}, {"xpath": "s"}]}}]}},
+   "c4": {"custom_func": {"name": "javascript", "args": [{"const": "a + '/' + b + '/' + c"}, {"const": "a"}, {"external": "tenant"}, {"const": "b"}, {"xpath": "v", "type": "int"}, {"const": "c"}, {"external": "region"}]}},
+   "c5": {"custom_func": {"name": "concat", "args": [{"xpath": "t"}, {"external": "region"}]}},
+   "c6": {"custom_func": {"name": "lower", "args": [{"external": "tenant"}]}}
+ }}}}`
+
+// old fixed-length, envelopes by header/footer regexps, several lines per envelope
+const flHFSchema = `{"parser_settings": {"version": "omni.2.1", "file_format_type": "fixed-length"},
+ "file_declaration": {"envelopes": [
+   {"name": "GLOBAL", "by_header_footer": {"header": "^HDR", "footer": "^HEND"}, "not_target": true,
+    "columns": [{"name": "carrier", "start_pos": 4, "length": 6, "line_pattern": "^HC"}]},
+   {"by_header_footer": {"header": "^B0", "footer": "^E9"}, "columns": [
+     {"name": "a", "start_pos": 3, "length": 6, "line_pattern": "^1"},
+     {"name": "b", "start_pos": 3, "length": 5, "line_pattern": "^2"},
+     {"name": "c", "start_pos": 3, "length": 6, "line_pattern": "^3"},
+     {"name": "d", "start_pos": 9, "length": 3, "line_pattern": "^3"}]},
+   {"by_header_footer": {"header": "^Z0", "footer": "^Z9"}, "not_target": true}]},
+ "transform_declarations": {"FINAL_OUTPUT": {"object": {
+   "a": {"xpath": "a"}, "b": {"xpath": "b", "type": "int"}, "c": {"xpath": "c"}, "d": {"xpath": "d"},
+   "carrier": {"custom_func": {"name": "lower", "args": [{"xpath": "../GLOBAL/carrier"}]}}}}}}`
+
+// old fixed-length, envelopes of three rows
+const flRowsSchema = `{"parser_settings": {"version": "omni.2.1", "file_format_type": "fixed-length"},
+ "file_declaration": {"envelopes": [{"by_rows": 3, "columns": [
+     {"name": "a", "start_pos": 3, "length": 6, "line_pattern": "^1"},
+     {"name": "b", "start_pos": 3, "length": 5, "line_pattern": "^2"},
+     {"name": "c", "start_pos": 3, "length": 6, "line_pattern": "^3"},
+     {"name": "a2", "start_pos": 9, "length": 2, "line_pattern": "^1"}]}]},
+ "transform_declarations": {"FINAL_OUTPUT": {"object": {
+   "a": {"xpath": "a"}, "b": {"xpath": "b", "type": "int"}, "c": {"xpath": "c"}, "a2": {"xpath": "a2"}}}}}`
+
+// EDI with nested segment groups
+const ediNestedSchema = `{"parser_settings": {"version": "omni.2.1", "file_format_type": "edi"},
+ "file_declaration": {"segment_delimiter": "~", "element_delimiter": "*", "ignore_crlf": true,
+  "segment_declarations": [{"name": "ISA", "child_segments": [
+    {"name": "grp", "type": "segment_group", "min": 0, "max": -1, "is_target": true, "child_segments": [
+      {"name": "ST", "elements": [{"name": "id", "index": 1}]},
+      {"name": "item", "type": "segment_group", "min": 0, "max": -1, "child_segments": [
+        {"name": "LX", "elements": [{"name": "n", "index": 1}]},
+        {"name": "N9", "min": 0, "max": 5, "elements": [{"name": "ref", "index": 1}, {"name": "val", "index": 2, "default": ""}]}]},
+      {"name": "SE"}]},
+    {"name": "IEA", "min": 0}]}]},
+ "transform_declarations": {"FINAL_OUTPUT": {"object": {
+   "id": {"xpath": "ST/id"},
+   "items": {"array": [{"xpath": "item", "object": {"n": {"xpath": "LX/n", "type": "int"},
+      "refs": {"array": [{"xpath": "N9", "custom_func": {"name": "concat", "args": [{"xpath": "ref"}, {"const": "="}, {"xpath": "val"}]}}]}}}]}}}}}`
+
+// csv2 with nested child records
+const csv2NestedSchema = `{"parser_settings": {"version": "omni.2.1", "file_format_type": "csv2"},
+ "file_declaration": {"delimiter": ",", "records": [{"name": "H", "header": "^H,", "is_target": true,
+   "columns": [{"name": "num", "index": 2}, {"name": "who", "index": 3}],
+   "child_records": [{"name": "D", "header": "^D,", "min": 1, "max": -1, "columns": [{"name": "item", "index": 2}, {"name": "qty", "index": 3}]}]}]},
+ "transform_declarations": {"FINAL_OUTPUT": {"object": {
+   "num": {"xpath": "num", "type": "int"}, "who": {"xpath": "who"},
+   "items": {"array": [{"xpath": "D", "object": {"item": {"xpath": "item"}, "qty": {"xpath": "qty", "type": "int"}}}]}}}}}`
+
+func genFLHF(r *vh.Rng, n int) []byte {
+	var sb strings.Builder
+	sb.WriteString("HDR\nHC " + pad6(r.PickStr("AcmeCo", "PostNL", "UPS")) + "\nHEND\n")
+	for i := 0; i < n; i++ {
+		fmt.Fprintf(&sb, "B0\n1 %s\n2 %s\nX filler line\n3 %s%03d\nE9\n", pad6(r.PickStr("x", "abc", "Q9", "zz top", "w")), pad5(fmt.Sprint(r.Between(0, 9999))), pad6(r.PickStr("cc", "d", "hello")), r.Pick(1000))
+	}
+	sb.WriteString("Z0\nZ9\n")
+	return []byte(sb.String())
+}
+
+func genFLRows(r *vh.Rng, n int) []byte {
+	var sb strings.Builder
+	for i := 0; i < n; i++ {
+		fmt.Fprintf(&sb, "1 %s%02d\n2 %s\n3 %s\n", pad6(r.PickStr("x", "abc", "Q9", "zz top", "w")), r.Pick(100), pad5(fmt.Sprint(r.Between(0, 9999))), pad6(r.PickStr("cc", "d", "hello")))
+	}
+	return []byte(sb.String())
+}
+
+func genEDINested(r *vh.Rng, n int) []byte {
+	var sb strings.Builder
+	sb.WriteString("ISA*00~\n")
+	for i := 0; i < n; i++ {
+		fmt.Fprintf(&sb, "ST*%d~", r.Between(1, 9999))
+		for k, m := 0, r.Between(0, 3); k < m; k++ {
+			fmt.Fprintf(&sb, "LX*%d~", k+1)
+			for q, z := 0, r.Pick(3); q < z; q++ {
+				fmt.Fprintf(&sb, "N9*%s*%s~", r.PickStr("PO", "BM", "CN"), r.PickStr("x1", "", "77"))
+			}
+		}
+		sb.WriteString("SE*1~\n")
+	}
+	sb.WriteString("IEA*1~")
+	return []byte(sb.String())
+}
+
+func genCSV2Nested(r *vh.Rng, n int) []byte {
+	var sb strings.Builder
+	for i := 0; i < n; i++ {
+		fmt.Fprintf(&sb, "H,%d,%s\n", r.Between(1, 9999), r.PickStr("ann", "bob", "héllo"))
+		for k, m := 0, r.Between(1, 4); k < m; k++ {
+			fmt.Fprintf(&sb, "D,%s,%d\n", r.PickStr("nut", "bolt", "日本"), r.Between(1, 50))
+		}
+	}
+	return []byte(sb.String())
+}
+
+func padN(s string, n int) string {
+	for len([]rune(s)) < n {
+		s += " "
+	}
+	return string([]rune(s)[:n])
+}
+func pad6(s string) string { return padN(s, 6) }
+func pad5(s string) string { return padN(s, 5) }
+
 // namespace-prefixed XML; partner A and partner B bind the SAME namespace URI to different prefixes
 func nsSchema(p string) string {
 	return `{"parser_settings": {"version": "omni.2.1", "file_format_type": "xml"},
@@ -345,10 +474,11 @@ const xpathSchema = `{"parser_settings": {"version": "omni.2.1", "file_format_ty
  "up": {"custom_func": {"name": "upper", "args": [{"xpath": "."}]}}}}`
 
 type job struct {
-	Schema int    `json:"schema"`
-	Label  string `json:"label"`
-	Input  []byte `json:"-"`
-	InHex  string `json:"input_hex"`
+	Schema int               `json:"schema"`
+	Label  string            `json:"label"`
+	Input  []byte            `json:"-"`
+	InHex  string            `json:"input_hex"`
+	Ext    map[string]string `json:"externals,omitempty"` // per-transform external properties
 }
 
 func genJSInput(r *vh.Rng, n int) []byte {
@@ -388,7 +518,7 @@ func nextName(prefix string) string {
 
 // runJob drives one Transform to its terminal result; the transcript has every Read result
 // (output bytes or error text) and every record's checksum.
-func runJob(ss *sharedSchema, in []byte) (transcript []string, ids []int64, all []int64) {
+func runJob(ss *sharedSchema, in []byte, ext ...map[string]string) (transcript []string, ids []int64, all []int64) {
 	defer func() {
 		if p := recover(); p != nil {
 			transcript = append(transcript, fmt.Sprintf("PANIC: %v", p))
@@ -398,7 +528,11 @@ func runJob(ss *sharedSchema, in []byte) (transcript []string, ids []int64, all 
 	log := &idLog{}
 	logs.Store(name, log)
 	defer logs.Delete(name)
-	t, err := ss.Schema.NewTransform(name, bytes.NewReader(in), &transformctx.Ctx{})
+	tctx := &transformctx.Ctx{}
+	if len(ext) > 0 && ext[0] != nil {
+		tctx.ExternalProperties = ext[0]
+	}
+	t, err := ss.Schema.NewTransform(name, bytes.NewReader(in), tctx)
 	if err != nil {
 		return []string{"NewTransform: " + strings.ReplaceAll(err.Error(), name, "IN")}, nil, nil
 	}
@@ -442,9 +576,18 @@ type workload struct {
 	gen     []func(r *vh.Rng, n int) []byte
 }
 
-func buildWorkload(sum *vh.Summary) *workload {
+func buildWorkload(sum *vh.Summary) *workload { return buildWorkloadOnly(sum, nil) }
+
+// buildWorkloadOnly validates only the schemas named in need (nil: all); the others keep their
+// slot (indices are stable) but have no Schema object
+func buildWorkloadOnly(sum *vh.Summary, need map[string]bool) *workload {
 	w := &workload{}
 	add := func(name, text string, gen func(r *vh.Rng, n int) []byte) {
+		if need != nil && !need[name] {
+			w.schemas = append(w.schemas, &sharedSchema{Name: name})
+			w.gen = append(w.gen, gen)
+			return
+		}
 		ss, err := newSchema(name, text)
 		if err != nil {
 			if sum != nil {
@@ -464,6 +607,12 @@ func buildWorkload(sum *vh.Summary) *workload {
 	add("nsA", nsSchema("a"), genNSInput("a"))
 	add("nsB", nsSchema("b"), genNSInput("b"))
 	add("ctx", ctxSchema, genJSInput)
+	add("ctx3", ctx3Schema, genJSInput)
+	add("ext", extSchema, genJSInput)
+	add("fl-hf", flHFSchema, genFLHF)
+	add("fl-rows", flRowsSchema, genFLRows)
+	add("edi-nested", ediNestedSchema, genEDINested)
+	add("csv2-nested", csv2NestedSchema, genCSV2Nested)
 	add("shadow", shadowSchema, genJSInput)
 	add("users", usersSchema, genJSInput)
 	return w
@@ -495,7 +644,7 @@ func genContention(r *vh.Rng, w *workload) (desc mixDesc) {
 	for i, s := range w.schemas {
 		desc.Schemas = append(desc.Schemas, s.Name)
 		switch s.Name {
-		case "ctx", "shadow", "users", "js":
+		case "ctx", "ctx3", "shadow", "users", "js":
 			pick = append(pick, i)
 		}
 	}
@@ -507,7 +656,7 @@ func genContention(r *vh.Rng, w *workload) (desc mixDesc) {
 			name := ""
 			switch flavour {
 			case 0:
-				name = "ctx"
+				name = []string{"ctx3", "ctx"}[(g+k)%2]
 			case 1:
 				name = []string{"shadow", "users"}[(g+k)%2]
 			}
@@ -562,14 +711,68 @@ func genFormats(r *vh.Rng, w *workload) (desc mixDesc) {
 
 var mixCounter int
 
+// firstuse mixes: ONE fresh Schema object, 16 goroutines start their first transform over it
+// together (state a reader writes lazily on the shared declarations is written concurrently),
+// inputs with multi-line envelopes so that readers are mid-envelope while they interleave;
+// every goroutine has its own external properties
+func genFirstUse(r *vh.Rng, w *workload) (desc mixDesc) {
+	desc.Kind = "firstuse"
+	desc.Procs = 16
+	desc.Goroutines = 16
+	desc.NodePool = r.Chance(0.5)
+	desc.JSCache = "default"
+	for _, s := range w.schemas {
+		desc.Schemas = append(desc.Schemas, s.Name)
+	}
+	// rotation through all schemas; those with per-envelope / per-declaration reader state first,
+	// so that the short -race child sees them too
+	order := []string{"fl-hf", "fl-rows", "ext", "edi-nested", "csv2-nested", "fx-fixed-length", "fx-csv", "fx-edi", "fx-csv2", "fx-fixedlength2", "nsA", "ctx3", "xpath"}
+	var rot []int
+	for _, n := range order {
+		for i, s := range w.schemas {
+			if s.Name == n {
+				rot = append(rot, i)
+			}
+		}
+	}
+	for i, s := range w.schemas {
+		listed := false
+		for _, n := range order {
+			listed = listed || n == s.Name
+		}
+		if !listed {
+			rot = append(rot, i)
+		}
+	}
+	si := rot[(mixCounter/4)%len(rot)]
+	desc.Jobs = make([][]job, desc.Goroutines)
+	for g := 0; g < desc.Goroutines; g++ {
+		for k := 0; k < 2; k++ {
+			in := w.gen[si](r, r.Between(8, 25))
+			desc.Jobs[g] = append(desc.Jobs[g], job{Schema: si, Label: w.schemas[si].Name, Input: in, InHex: hex.EncodeToString(in)})
+		}
+	}
+	return
+}
+
 func genMix(r *vh.Rng, w *workload) (desc mixDesc) {
 	// every run has all three kinds of mixes, in rotation
 	mixCounter++
-	switch mixCounter % 3 {
+	defer func() {
+		// distinct external properties for every goroutine
+		for g := range desc.Jobs {
+			for k := range desc.Jobs[g] {
+				desc.Jobs[g][k].Ext = map[string]string{"tenant": fmt.Sprintf("Tenant%d", g), "region": fmt.Sprintf("r%d-%d", g, k)}
+			}
+		}
+	}()
+	switch mixCounter % 4 {
 	case 1:
 		return genContention(r, w)
 	case 2:
 		return genFormats(r, w)
+	case 3:
+		return genFirstUse(r, w)
 	}
 	desc.Kind = "mixed"
 	desc.Procs = []int{1, 2, 16}[r.Pick(3)]
@@ -601,8 +804,19 @@ func execMix(desc mixDesc, w0 *workload) (fails [][2]string, seqs [][]int64, c0,
 	// Fresh Schema objects for the concurrent phase: their FIRST use is concurrent, so state that
 	// is written lazily on first use is exercised (and raced) as well; the alone runs use another
 	// fresh set afterwards.
-	w := buildWorkload(nil)
-	wAlone := buildWorkload(nil)
+	need := map[string]bool{}
+	for g := range desc.Jobs {
+		for _, j := range desc.Jobs[g] {
+			need[j.Label] = true
+		}
+	}
+	if desc.Kind == "formats" {
+		for _, n := range []string{"nsA", "nsB", "fx-csv", "fx-json", "fx-fixed-length", "fx-edi"} {
+			need[n] = true
+		}
+	}
+	w := buildWorkloadOnly(nil, need)
+	wAlone := buildWorkloadOnly(nil, need)
 	if len(w.schemas) != len(w0.schemas) || len(wAlone.schemas) != len(w0.schemas) {
 		fails = append(fails, [2]string{"workload schemas could not be rebuilt", ""})
 		return
@@ -641,7 +855,7 @@ func execMix(desc mixDesc, w0 *workload) (fails [][2]string, seqs [][]int64, c0,
 			defer wg.Done()
 			<-start
 			for _, j := range desc.Jobs[g] {
-				tr, ids, all := runJob(w.schemas[j.Schema], j.Input)
+				tr, ids, all := runJob(w.schemas[j.Schema], j.Input, j.Ext)
 				got[g] = append(got[g], tr)
 				seqs[g] = append(seqs[g], ids...)
 				allIDs[g] = append(allIDs[g], all...)
@@ -680,7 +894,7 @@ func execMix(desc mixDesc, w0 *workload) (fails [][2]string, seqs [][]int64, c0,
 	for g := range desc.Jobs {
 		for _, j := range desc.Jobs[g] {
 			idr.VerifResetNodePool() // alone: not even another transform's released nodes
-			tr, _, _ := runJob(wAlone.schemas[j.Schema], j.Input)
+			tr, _, _ := runJob(wAlone.schemas[j.Schema], j.Input, j.Ext)
 			expected[g] = append(expected[g], tr)
 		}
 	}
@@ -694,6 +908,9 @@ func execMix(desc mixDesc, w0 *workload) (fails [][2]string, seqs [][]int64, c0,
 	}
 	for _, ws := range []*workload{w, wAlone} {
 		for _, s := range ws.schemas {
+			if s.Schema == nil {
+				continue
+			}
 			if s.dump() != s.ref {
 				fails = append(fails, [2]string{"validated declarations / format runtime of schema " + s.Name + " are not what they were right after validation: a transform wrote to the schema", ""})
 			}
@@ -759,7 +976,7 @@ func buildAndRunRace(o *vh.Opts, sum *vh.Summary, mixes int) {
 	sum.Extra["race_build_s"] = time.Since(t0).Seconds()
 	t1 := time.Now()
 	child := exec.Command(out, "-race-child", "-seed", fmt.Sprint(o.Seed), "-tier", o.Tier, "-n", fmt.Sprint(mixes), "-out", filepath.Join(o.Out, "race"))
-	child.Env = append(os.Environ(), "GORACE=halt_on_error=0 exitcode=66 history_size=2")
+	child.Env = append(os.Environ(), "GORACE=halt_on_error=0 exitcode=66")
 	var buf bytes.Buffer
 	child.Stdout, child.Stderr = &buf, &buf
 	err = child.Run()
@@ -877,7 +1094,7 @@ func main() {
 		sample := map[string][]string{}
 		okc := 0
 		for i, ss := range w.schemas {
-			tr, _, _ := runJob(ss, w.gen[i](r0, 6))
+			tr, _, _ := runJob(ss, w.gen[i](r0, 6), map[string]string{"tenant": "T0", "region": "r0"})
 			for _, l := range tr {
 				if strings.HasPrefix(l, "OK: ") {
 					okc++
